@@ -4,11 +4,11 @@ import itertools
 import core, suites, findings
 from core import World, parse_fs, Line, hx
 from gen import Gen, mode_line, cfg_line
-from suites import run_suite, parse_snap, exp_silent
+from suites import run_suite, parse_snap, parse_snap_scan, crlf_all, exp_silent
 
 LEAN_MODULES = ['GoSnaps.Props.C05', 'GoSnaps.Props.C05Clean', 'GoSnaps.Props.Tie.SnapshotIO', 'GoSnaps.Props.Tie.CleanIO', 'GoSnaps.Props.Tie.Flows', 'GoSnaps.Props.Tie.CleanTopIO1', 'GoSnaps.Props.Tie.CleanTopIO2', 'GoSnaps.Props.Tie.CleanTopIO3', 'GoSnaps.Props.Tie.CleanTopIO']
 EVIDENCE = dict(exhaustive=True,
-                rule='complete enumeration of CI{on,off} x Update{unset,true,false} x UPDATE_SNAPS{unset,true,clean,other} x 5 entry points x entry{missing,equal,different} (+ the two JSON entry points x {stored in another layout}) and of the Clean cells (sort option x stale present x file sorted); each cell once in-process and once in a process started with the real environment; a cell is non-trivial when the real code produced an event or a write')
+                rule='complete enumeration of CI{on,off} x Update{unset,true,false} x UPDATE_SNAPS{unset,true,clean,other} x 5 entry points x entry{missing,equal,different} (+ the two JSON entry points x {stored in another layout}) and of the Clean cells (sort option x stale present x file sorted); the cells with a present multi-entry snapshot and the Clean cells once more per file variant (CR LF, mixed line endings, hand-edited spacing); each cell once in-process and once in a process started with the real environment; a cell is non-trivial when the real code produced an event or a write')
 
 UPDS = ['', 'true', 'clean', 'other']
 # spellings that must NOT count as `true` / `clean` (the "any other string" class)
@@ -22,7 +22,22 @@ def frame(tid, body):
     return b'\n[' + tid + b']\n' + body + b'\n---\n'
 
 
-def cell_world(tag, ci, updopt, upd, kind, state, stored_empty=False):
+def eol_variant(content, eol):
+    """the same snapshot file with other line endings / hand-edited spacing: `crlf` = every line ends
+    in CR LF (core.autocrlf checkout), `mixed` = only the lines before the first header do not,
+    `gaps` = extra blank lines and a free-text line between entries.  The line scanner drops the CR
+    and the lookup only looks at whole lines, so the entry is present exactly as before."""
+    if eol == 'crlf':
+        return crlf_all(content)
+    if eol == 'mixed':
+        ls = content.split(b'\n')
+        return b'\n'.join(l + b'\r' if (i % 2 == 1 and i < len(ls) - 1) else l for i, l in enumerate(ls))
+    if eol == 'gaps':
+        return b'\n\n# hand-edited\n' + content.replace(b'\n---\n', b'\n---\n\n\n') + b'trailing words\n'
+    return content
+
+
+def cell_world(tag, ci, updopt, upd, kind, state, stored_empty=False, eol='lf'):
     w = World(tag)
     w.add(mode_line(ci, upd))
     w.add(cfg_line(1, 'snaps', 'f', None, updopt))
@@ -36,7 +51,9 @@ def cell_world(tag, ci, updopt, upd, kind, state, stored_empty=False):
         stored = stored.replace(b'\n ', b'\n    ').replace(b': ', b':  ')
     if state != 'missing':
         if kind in ('snap', 'json', 'yaml'):
-            w.add('fsput %s %s' % (hx('snaps/f.snap'), hx(frame(name + b' - 1', stored))))
+            # the addressed entry sits between two entries of other tests
+            content = frame(b'TestBefore - 1', b'first\nentry') + frame(name + b' - 1', stored) + frame(b'TestZ - 1', b'last') if eol != 'lf' else frame(name + b' - 1', stored)
+            w.add('fsput %s %s' % (hx('snaps/f.snap'), hx(eol_variant(content, eol))))
         elif kind == 'sasnap':
             w.add('fsput %s %s' % (hx('snaps/f_1.snap'), hx(stored)))
         else:
@@ -84,11 +101,11 @@ def cell_world(tag, ci, updopt, upd, kind, state, stored_empty=False):
             return 'nothing was written although the mode table allows it'
         return None
     w.add('fsdump', ('mode-table-fs', exp_fs))
-    w.meta['cell'] = (ci, updopt, upd, kind, state)
+    w.meta['cell'] = (ci, updopt, upd, kind, state, eol)
     return w
 
 
-def clean_world(tag, ci, upd, sortopt, stale, sorted_file):
+def clean_world(tag, ci, upd, sortopt, stale, sorted_file, eol='lf'):
     w = World(tag)
     w.add(mode_line(ci, upd))
     w.add(cfg_line(1, 'snaps', 'f', None, 'none'))
@@ -98,7 +115,8 @@ def clean_world(tag, ci, upd, sortopt, stale, sorted_file):
     entries = [(i, b'v' + i[-1:]) for i in ids]
     if stale:
         entries.insert(1, (b'TestGone - 1', b'old'))
-    content = b''.join(frame(i, b) for i, b in entries)
+    content = eol_variant(b''.join(frame(i, b) for i, b in entries), eol)
+    parse = parse_snap if eol == 'lf' else (lambda c: parse_snap_scan(c, loose=True))
     w.add('fsput %s %s' % (hx('snaps/f.snap'), hx(content)))
     if stale:
         w.add('fsput %s %s' % (hx('snaps/orphan.snap'), hx(frame(b'TestOrphan - 1', b'x'))))
@@ -134,7 +152,7 @@ def clean_world(tag, ci, upd, sortopt, stale, sorted_file):
             return 'obsolete file %s although the mode table says deletes=%s' % ('kept' if orphan[0] in b else 'removed', deletes)
         if pa not in b:
             return 'the addressed snapshot file disappeared'
-        ea, eb = parse_snap(a[pa]), parse_snap(b[pa])
+        ea, eb = parse(a[pa]), parse(b[pa])
         if eb is None:
             return 'snapshot file is not well formed after Clean'
         want = list(ea)
@@ -151,7 +169,7 @@ def clean_world(tag, ci, upd, sortopt, stale, sorted_file):
             return 'file bytes changed although nothing had to be pruned or sorted'
         return None
     w.add('fsdump', ('clean-effects', exp_fs))
-    w.meta['cell'] = ('clean', ci, upd, sortopt, stale, sorted_file)
+    w.meta['cell'] = ('clean', ci, upd, sortopt, stale, sorted_file, eol)
     if stale and sorts and not sorted_file and not deletes:
         w.flags.add('D5')
     return w
@@ -172,6 +190,12 @@ def all_cells(envfilter=None):
             continue
         n += 1
         worlds.append(cell_world('cell-%d' % n, ci, updopt, upd, kind, state))
+        if kind in ('snap', 'json', 'yaml') and state != 'missing':
+            # "entry state in {missing, equal, different}" is decided by the LOOKUP: the same cells with
+            # the file in CR LF / mixed line endings or with hand-edited spacing (entry still present)
+            for eol in ('crlf', 'mixed', 'gaps'):
+                n += 1
+                worlds.append(cell_world('cell-%d-%s' % (n, eol), ci, updopt, upd, kind, state, eol=eol))
     for ci, updopt, upd, kind in itertools.product([False, True], ['none', 'true', 'false'], UPDS, ['json', 'sajson']):
         if envfilter and envfilter != (ci, upd):
             continue
@@ -182,6 +206,9 @@ def all_cells(envfilter=None):
             continue
         n += 1
         worlds.append(clean_world('clean-%d' % n, ci, upd, sortopt, stale, sorted_file))
+        for eol in ('crlf', 'gaps'):
+            n += 1
+            worlds.append(clean_world('clean-%d-%s' % (n, eol), ci, upd, sortopt, stale, sorted_file, eol=eol))
     return worlds
 
 
